@@ -13,6 +13,7 @@
 package main
 
 import (
+	"bytes"
 	"encoding/hex"
 	"encoding/json"
 	"flag"
@@ -416,6 +417,9 @@ type infoFile struct {
 // content classifies the bytes of a file: the complete request state, the complete partial result of
 // the fraction the name says, or CTorn
 func (p *proj) content(fn string, data []byte) (res string) {
+	if len(data) >= longPad {
+		return "CLong"
+	}
 	defer func() {
 		if recover() != nil {
 			res = "CTorn"
@@ -588,9 +592,11 @@ func readAsyncDir(dir string) map[string][]byte {
 
 // ---------------------------------------------------------------- one world
 
+const longPad = 4096
+
 type crashPoint struct {
 	K       int `json:"k"`
-	Variant int `json:"variant"` // 0 after k operations; 1 the k-th operation (a write) cut short; 2 power loss after k
+	Variant int `json:"variant"` // 0 after k operations; 1 the k-th operation (a write) cut short; 2 power loss after k; 3 leftover tmp files longer than any payload
 	Cut     int `json:"cut,omitempty"`
 	// the fraction list moves between the crash and the resume: after the restart, before the
 	// asynchronous searcher is started, new matching documents in the query's range are ingested
@@ -649,6 +655,15 @@ func crashState(tr *crashfs.Trace, ops []pop, cp crashPoint) *crashfs.State {
 	case 2:
 		st := tr.StateAt(rawAfter(cp.K))
 		st.PowerLoss(func(path string, synced, length int) int { return synced })
+		return st
+	case 3: // every leftover temporary file is longer than anything a later run writes into it
+		st := tr.StateAt(rawAfter(cp.K))
+		for name, ino := range st.Names {
+			if f := st.Inodes[ino]; f != nil && strings.HasPrefix(name, "async/") && strings.HasSuffix(name, ".tmp") {
+				f.Data = append(f.Data, bytes.Repeat([]byte{'Z'}, longPad)...)
+				f.Synced = len(f.Data)
+			}
+		}
 		return st
 	}
 	return tr.StateAt(rawAfter(cp.K))
@@ -781,6 +796,62 @@ func shapeOK(ops []pop) bool {
 		}
 	}
 	return true
+}
+
+// runRace: a fresh process resumes the request on dir with the worker held in the mapping provider
+// (it has listed its processed fractions and holds the only parallelism slot); FetchSearchResult is
+// started, the worker is let go; the fetch lists the files and blocks on a named pipe among them while
+// the worker finishes the request (Done); only then the pipe is released and the fetch returns.
+func runRace(dir string, spec searchSpec) (got childResp, skipped string, err error) {
+	st, err := storectl.Start("")
+	if err != nil {
+		return got, "", fmt.Errorf("harness: %w", err)
+	}
+	st.Timeout = 60e9
+	defer st.Close()
+	if _, err = st.Call(storectl.Req{Op: "open", Dir: dir + "/data"}); err != nil {
+		return got, "", fmt.Errorf("open: %w", err)
+	}
+	if _, err = call(st, "c19.start", childReq{AsyncDir: dir + "/async", Parallelism: 1, Spec: spec, Gate: true}); err != nil {
+		return got, "", fmt.Errorf("start: %w", err)
+	}
+	r, err := call(st, "c19.gate", childReq{Action: "wait_entered", TimeoutMs: 4000})
+	if err != nil {
+		return got, "", fmt.Errorf("gate: %w", err)
+	}
+	if !r.Found {
+		return got, "worker-not-resumed", nil
+	}
+	if _, err = call(st, "c19.pipe", childReq{Action: "make", Spec: spec}); err != nil {
+		return got, "", fmt.Errorf("harness: mkfifo: %w", err)
+	}
+	// the worker re-parses the query under the request lock, so the fetch (started now) waits for that
+	// lock; once the gate opens the fetch looks the request up and lists the files long before the worker
+	// has searched, compressed and fsynced its next partial result
+	if _, err = call(st, "c19.fetch_bg", childReq{Spec: spec}); err != nil {
+		return got, "", fmt.Errorf("fetch: %w", err)
+	}
+	time.Sleep(5 * time.Millisecond)
+	if _, err = call(st, "c19.gate", childReq{Action: "open"}); err != nil {
+		return got, "", fmt.Errorf("gate: %w", err)
+	}
+	r, err = call(st, "c19.pipe", childReq{Action: "wait_reader", TimeoutMs: 4000})
+	if err != nil {
+		return got, "", fmt.Errorf("pipe: %w", err)
+	}
+	if !r.Found {
+		call(st, "c19.pipe", childReq{Action: "release"})
+		return got, "fetch-did-not-reach-the-pipe", nil
+	}
+	waitDone(dir+"/async/"+spec.ID+".info", 8*time.Second, st)
+	if _, err = call(st, "c19.pipe", childReq{Action: "release"}); err != nil {
+		return got, "", fmt.Errorf("pipe: %w", err)
+	}
+	got, err = call(st, "c19.fetch_join", childReq{TimeoutMs: 8000})
+	if err != nil {
+		return got, "", fmt.Errorf("fetch: %w", err)
+	}
+	return got, "", nil
 }
 
 func buildCorpus(root string, w *world) error {
@@ -976,6 +1047,9 @@ func runWorld(seed uint64, idx int, tier string, only [][]crashPoint) (res *resu
 		if k > 0 && ops0[k-1].write {
 			points = append(points, crashPoint{K: k, Variant: 2})
 		}
+		if k > 0 && (strings.HasPrefix(ops0[k-1].coq, "OCreate") || strings.HasPrefix(ops0[k-1].coq, "OWrite") || strings.HasPrefix(ops0[k-1].coq, "OFsync ")) {
+			points = append(points, crashPoint{K: k, Variant: 3})
+		}
 	}
 	budget := 10
 	if tier == "thorough" {
@@ -1116,11 +1190,54 @@ func runWorld(seed uint64, idx int, tier string, only [][]crashPoint) (res *resu
 					cp2.Variant, cp2.Cut = 1, r.Intn(n)
 				}
 			} else if cp2.K > 0 && ops[cp2.K-1].write {
-				cp2.Variant = 2
+				cp2.Variant = r.Range(2, 3)
 			}
 			chains = append(chains, []crashPoint{chain[0], cp2})
 		}
 		os.RemoveAll(dir)
+	}
+	// FetchSearchResult overlapping the worker (see runRace)
+	if only == nil && !w.BadUTF8 && len(p.names) > 0 && shapeOK(ops0) {
+		var ks []int
+		for i := 0; i < len(p.names); i++ {
+			ks = append(ks, 6+5*i)
+		}
+		if tier != "thorough" && len(ks) > 2 {
+			rng.Shuffle(r, ks)
+			ks = ks[:2]
+			sort.Ints(ks)
+		}
+		for _, k := range ks {
+			if k > len(ops0) {
+				continue
+			}
+			in := base()
+			in["kind"] = "race"
+			in["k"] = k
+			dir := fmt.Sprintf("%s/race%d", top, k)
+			if err := crashState(run0.tr, ops0, crashPoint{K: k}).Materialize(dir); err != nil {
+				panic(err)
+			}
+			os.MkdirAll(dir+"/data", 0o755)
+			got, skipped, err := runRace(dir, w.Spec)
+			os.RemoveAll(dir)
+			if err != nil {
+				if died(err) {
+					res.viols = append(res.viols, violation{vfp("died-race"), "the store process failed while a fetch overlapped the resumed search: " + err.Error(), in})
+					continue
+				}
+				panic(err)
+			}
+			if skipped != "" {
+				res.counts = append(res.counts, "race-skipped:"+skipped)
+				continue
+			}
+			res.cases = append(res.cases, ccase{
+				term: fmt.Sprintf("CRace %s %d%%nat %s %s %s", wterm, k, casefile.Bool(got.Found), casefile.Bool(got.Done), bt.qprCoq(resOf(got))),
+				class: "fetch-overlaps-worker", nontrivial: len(p.names) >= 2, input: in,
+				impl: map[string]any{"partial_results_listed": (k - 6) / 5, "fractions": len(p.names), "found": got.Found, "done": got.Done,
+					"async": got.QPR, "sync": run0.sync.QPR}})
+		}
 	}
 	return res
 }
